@@ -190,6 +190,17 @@ private:
   template <typename Entry, typename OutputStream>
   std::size_t consumeSpecialEntry(const Entry& entry, OutputStream& out);
 
+  /**
+   * Append `entry` to `out` by a single write.
+   *
+   * If `entry` is serialized directly into a recoverable stream (field by field),
+   * then until the last field is written, the stream ends in an incomplete entry,
+   * and brecovery rejects it as a whole: the complete metadata would be lost
+   * if the application crashes (on any thread) meanwhile.
+   */
+  template <typename Entry>
+  void appendSpecialEntry(const Entry& entry, detail::RecoverableVectorOutputStream& out);
+
   std::mutex _mutex;
 
   std::vector<std::shared_ptr<Channel>> _channels;
@@ -251,7 +262,7 @@ inline detail::Queue& Session::Channel::queue()
 inline Session::Session()
 {
   const ClockSync clockSync = systemClockSync();
-  serializeSizePrefixedTagged(clockSync, _clockSync);
+  appendSpecialEntry(clockSync, _clockSync);
 }
 
 inline std::shared_ptr<Session::Channel> Session::createChannel(std::size_t queueCapacity, WriterProp writerProp)
@@ -281,7 +292,7 @@ inline std::uint64_t Session::addEventSource(EventSource eventSource)
   std::lock_guard<std::mutex> lock(_mutex);
 
   eventSource.id = _nextSourceId;
-  serializeSizePrefixedTagged(eventSource, _sources);
+  appendSpecialEntry(eventSource, _sources);
   return _nextSourceId++;
 }
 
@@ -299,7 +310,7 @@ inline void Session::setClockSync(const ClockSync& clockSync)
 {
   std::lock_guard<std::mutex> lock(_mutex);
 
-  serializeSizePrefixedTagged(clockSync, _clockSync);
+  appendSpecialEntry(clockSync, _clockSync);
   _consumeClockSync = true;
 }
 
@@ -426,6 +437,14 @@ Session::ConsumeResult Session::reconsumeMetadata(OutputStream& out)
   _totalConsumedBytes += result.bytesConsumed;
   result.totalBytesConsumed = _totalConsumedBytes;
   return result;
+}
+
+template <typename Entry>
+void Session::appendSpecialEntry(const Entry& entry, detail::RecoverableVectorOutputStream& out)
+{
+  _specialEntryBuffer.clear();
+  serializeSizePrefixedTagged(entry, _specialEntryBuffer);
+  out.write(_specialEntryBuffer.data(), _specialEntryBuffer.ssize());
 }
 
 template <typename Entry, typename OutputStream>
